@@ -130,13 +130,15 @@ PROPS["C08"] = dict(
 )
 PROPS["C10"] = dict(
     module="UpfVerif.Props.C10",
-    streams=[_ctl(6, "urr")],
-    rule="ctl profile 'urr': report batches (1-3 usage reports, 64-bit counters at boundaries, single-cause and arbitrary triggers, START) for live / unknown / ended "
+    streams=[_ctl(6, "urr"), dict(name="krep", args=["net=250"], shards=2, shards_thorough=8, seed_per_shard=True, timeout=900, timeout_thorough=3000)],
+    rule="krep: gtp5g REPORT multicasts (1-6 usage reports over 1-5 sessions in one message, 64-bit volumes at boundaries, every single-cause trigger word and non-mapped words, "
+         "unknown sessions / URRs) through the real buffnetlink listener and the running server to the SMF; ctl profile 'urr': report batches (1-3 usage reports, 64-bit counters at boundaries, single-cause and arbitrary triggers, START) for live / unknown / ended "
          "sessions and known / unknown URRs with every measurement-method x MNOP combination; node ids IPv4 and IPv6",
     trusted_base=_CTL_TB, assumptions=_CTL_ASSUME,
     level_text="Kernel-checked (Props/C10.lean): a usage batch for a live session is answered by exactly one Session Report Request to the owner with the peer's SEID; "
                "each IE carries URR id, trigger and measured values unchanged, measurement IEs selected by method/MNOP; unknown sessions/URRs dropped without touching "
-               "the rest. Tie: S-ctl 'urr'; the kernel-side decoding (buffnetlink) is covered by the S-drv stream of C02/C03.",
+               "the rest. Tie: S-ctl 'urr' (handlers) + S-full 'krep' (kernel REPORT multicast decoded by the real buffnetlink listener, queued, served by the running loop, "
+               "Session Report Requests decoded at the SMF).",
     level_note="Trusted: as C01; go-pfcp's IE encoders (harness decodes what was sent). Known finding: reports for sessions whose node id is IPv6/FQDN are dropped.",
 )
 PROPS["C11"] = dict(
